@@ -1,5 +1,5 @@
 """Tier B property checks: C03 (heapgraph), C09 (sync), C13 (exhaust), C12 addition."""
-import json, os, time
+import json, os, re, time
 from common import *
 import tier_b as tb
 import model_heapgraph as mh
@@ -15,6 +15,23 @@ STUB_B = ["parking_lot / scoped_threadpool / threadpool / rand replaced by simul
 ASSUME_B = ["preemption only at runtime entry points and shim operations (mutex, condvar, thread-state byte, header-word stores, sweeper cursors), never between two machine instructions of compiled code",
             "sequentially consistent interleavings (one OS thread)",
             "x86-64 only; arm64 output is never executed"]
+
+
+def heap_key(run, v, res=None):
+    """Key of a violation for the known-findings file. One listed finding needs a precise
+    key: the generational collector promotes whole 64 KiB pages at every full collection and
+    never compacts the old generation, so enough full collections with a little surviving
+    data in between exhaust the heap page by page (sparse-page promotion)."""
+    if v[0] == "trap:OOM" and run["exe"][1] == "swiper" and res is not None:
+        st = res.get("stats") or {}
+        heap_mb = 128
+        m = re.search(r"--max-heap-size=(\d+)M", run["dora_flags"])
+        if m:
+            heap_mb = int(m.group(1))
+        collections = st.get("stw_operations", 0)
+        if collections * 65536 >= 0.4 * (heap_mb << 20):
+            return "swiper:sparse-page-promotion:trap:OOM"
+    return "%s:%s" % (run["exe"][0], v[0])
 
 
 def hg_run(seed, prop, i, fault_free, collectors=("zero", "copy", "sweep", "swiper"), codegens=("cannon", "boots"), profile=None, max_ops=200):
@@ -186,7 +203,7 @@ def run_tier_b_property(prop, tier, quick_s, thorough_s, drivers, collectors, co
                     done[i] = (run, res)
                     v = tb.classify(run, res)
                     if v is not None:
-                        key = key_fn(run, v) if key_fn else "%s:%s" % (run["exe"][0], v[0])
+                        key = key_fn(run, v, res) if key_fn else "%s:%s" % (run["exe"][0], v[0])
                         if match_known(prop, key) is None:
                             state["stop"] = True
 
@@ -382,7 +399,7 @@ def c03(tier):
     t0 = time.time()
     main = run_tier_b_property(
         "C03", tier, quick_s=75, thorough_s=1200, drivers=["heapgraph", "mtheap"], collectors=["zero", "copy", "sweep", "swiper"], codegens=["cannon", "boots"],
-        make_run=c03_make_run, shrink=_ShrinkByDriver({"heapgraph": hg_shrink, "mtheap": mt_shrink}), expect_fn=hg_expect, write=False,
+        make_run=c03_make_run, shrink=_ShrinkByDriver({"heapgraph": hg_shrink, "mtheap": mt_shrink}), expect_fn=hg_expect, write=False, key_fn=heap_key,
         level_text="seeded search over generated object-graph scripts x collector x code generator x heap/young size x workers x TLAB x gc-verify x schedule x injected collections/allocation failures; oracle = Python reference model of the script (exact stdout), clean exit, no runtime assertion / gc-verify failure / signal, M-stw monitor inside every collection, M-sweep after every concurrent sweep")
     exit_code, cov, reported = main
     results, images, packages, refs = boots_workload_batch(tier, tier_budget(tier, 40, 600) if not os.environ.get("VERIF_BUDGET_S") else float(os.environ["VERIF_BUDGET_S"]) / 2)
@@ -514,7 +531,7 @@ def sync_expect(argv, run):
 def c09_tier_b(tier, quick_s=60, thorough_s=1200, write=True):
     return run_tier_b_property(
         "C09", tier, quick_s=quick_s, thorough_s=thorough_s, drivers=["sync"], collectors=["copy", "sweep", "swiper"], codegens=["cannon", "boots"],
-        make_run=sync_run, shrink=sync_shrink, expect_fn=sync_expect, write=write,
+        make_run=sync_run, shrink=sync_shrink, expect_fn=sync_expect, write=write, key_fn=heap_key,
         level_text="seeded search over generated lock/condition/barrier/queue/join/atomic scripts (schedule-independent expected final state) x collector x code generator x schedule x injected collections that move mutex/condition objects while threads are queued; oracle = model output, in-driver exclusion assertions, deadlock detection (all tasks blocked = lost wake-up), no runtime assertion, M-stw")
 
 
@@ -635,7 +652,7 @@ def c13(tier):
     return exit_code
 
 
-def ex_key(run, v):
+def ex_key(run, v, res=None):
     mode, where, nby, a, b = run["argv"]
     if mode == 0:
         kind = "negative-length" if b < 0 else "huge-length"
@@ -710,6 +727,6 @@ def c12(tier):
         assumptions=["sequentially consistent interleavings only", "parking_lot condvars have no spurious wake-ups", "callers publish before they poll"])
     b = run_tier_b_property(
         "C12", tier, quick_s=45, thorough_s=900, drivers=["heapgraph"], collectors=["swiper"], codegens=["cannon", "boots"],
-        make_run=c12_tier_b_run, shrink=hg_shrink, expect_fn=hg_expect, write=False,
+        make_run=c12_tier_b_run, shrink=hg_shrink, expect_fn=hg_expect, write=False, key_fn=heap_key,
         level_text="real parallel marking (marking.rs) and parallel evacuation (minor.rs) with 1/2/4/8 workers as simulator tasks, real work stealing and termination detection, over generated object graphs; oracle = reference model + gc-verify + deadlock detection")
     return combine("C12", tier, [a, b], t0, ASSUME_B)
